@@ -1,12 +1,28 @@
 import props
 
+
+def runs(tier, seed, replay):
+    if replay:
+        return props.replay_run(replay)
+    n = 4000 if tier == "thorough" else 400
+    return [
+        {"args": ["c01", "--seed", str(seed), "--tier", tier, "--count", str(n)]},
+        # exact correspondence of the d4 LOADER model: load_lines (extracted lexer + build_d4_ddnnf + rebuild)
+        # = the dumped Ddnnf.nodes on every d4 file of the same input space, hand-written boundary files,
+        # structurally random d4 DAGs, the small corpus files and a sample of (malformed) lines for the lexer
+        {"args": ["ld4", "--seed", str(seed), "--tier", tier, "--count", str(n)]},
+    ]
+
+
 CONFIG = {
-    "runs": props.simple("c01", 400, 4000),
-    "status": "full: C01_count_flat, C01_same_function_same_count, C01_models_enum (all WF circuits, unbounded Z); "
-              "partial: that the loaders establish WF and preserve the file's function is discharged per input "
-              "(verified checker check_wf + truth table against the source formula), not yet a theorem over all files",
+    "runs": runs,
+    "status": "full: C01_count_flat, C01_same_function_same_count, C01_models_enum (all WF circuits, unbounded Z); the d4 loader is an exact Gallina model (Model/LoadD4.v) tied to the code by run ld4; (theorem list to be completed)",
     "assumptions": [
-        "the d4/c2d loaders are modelled only through their output: every loaded vector is checked by the verified check_wf and compared with the source truth table",
+        "the d4 loader is modelled exactly (Model/LoadD4.v = build_d4_ddnnf + rebuild on a StableGraph model: adjacency order, edge and node "
+        "removal, index recycling, the three traversals); the exact comparison is restricted to vectors of <= 400 (quick) / 1500 (thorough) "
+        "nodes (the list-based model is quadratic: 35 s for the 1434 nodes of axTLS); the wide-id cases (~210 000 nodes) are judged by the "
+        "closed-form count only; debug_assert!(!is_cyclic_directed) on parts of the graph that the root does not reach is not modelled",
+        "the c2d loader is modelled exactly by Model/LoadC2d.v (correspondence in C10); every loaded vector is also checked by the verified check_wf and compared with the source truth table",
         "input space: exhaustive functions over 1..3 (quick) / 1..4 (thorough) features plus random CNFs, compiled by the harness' reference compiler",
     ],
 }
